@@ -41,7 +41,7 @@ struct K {
   int eintr_fired = 0, eintr_budget = 8;
   int bad_closes = 0, bad_sem_ops = 0, stray_munmaps = 0, sigpipes = 0;
   uint64_t closes = 0, opens = 0, msg_errors = 0, msg_warnings = 0;
-  int last_sem[MAXT], last_shm[MAXT]; bool last_shm_created[MAXT] = {false}; bool last_sem_created[MAXT] = {false};
+  int last_sem[MAXT], last_shm[MAXT]; bool last_shm_created[MAXT] = {false}; bool last_sem_created[MAXT] = {false}; size_t last_shm_size_at_open[MAXT] = {0}; long last_fstat_size[MAXT] = {0};
   std::string last_sem_name[MAXT], last_shm_name[MAXT];
   Net *net = nullptr;
   int files_open = 0, dirs_open = 0, libs_open = 0;
